@@ -96,7 +96,13 @@ LEMMA NextInv == Inv /\ [Next]_vars => Inv'
       BY <1>6, <1>0 DEF CNextRound, Inv, Round
     <2>2. witem' = witem /\ toProc' = toProc /\ results' = results /\ yielded' = yielded
       BY <1>6 DEF CNextRound
-    <2> QED BY <1>6, <1>0, <2>1, <2>2 DEF CNextRound, Inv, CPcs, Round
+    <2>3. rnd' = rnd + 1 /\ cpc' = "prefill" /\ k' = 0 /\ fed' = 0 /\ cur' = 0
+      BY <1>6 DEF CNextRound
+    <2>4. \A r \in Round : r > rnd' => yielded'[r] = <<>>
+      BY <2>2, <2>3, <1>0 DEF Inv, Round
+    <2>5. yielded'[rnd'] = <<>>
+      BY <2>1, <2>2, <2>3
+    <2> QED BY <1>0, <2>1, <2>2, <2>3, <2>4, <2>5 DEF Inv, CPcs
   <1>7. ASSUME NEW w \in W, WGet(w) PROVE Inv'
     <2>0. w[1] \in Round /\ toProc[w[1]] \in Seq(Int) /\ toProc[w[1]] # <<>>
       BY <1>7 DEF WGet, W, Inv
